@@ -54,7 +54,8 @@ func NewReplicateMetaImpl(store api.ReplicateStore) (*ReplicateMeteImpl, error) 
 }
 
 func (r *ReplicateMeteImpl) Reload() error {
-	metaMsgs, err := r.store.Get(context.Background(), "", true)
+	// only the task msg keys, the root path of the store may contain the root path of another store
+	metaMsgs, err := r.store.Get(context.Background(), KeyPrefix+"/", true)
 	if err != nil {
 		return err
 	}
